@@ -50,6 +50,7 @@ func (fr *Frame) assignedInLoop(li *loopInfo) (map[string]bool, bool) {
 				a, al := fr.callAssigns(&x.Call)
 				if al {
 					all = true
+					ex.note("loop %d of %s: call of %s has an unknown frame", li.ord, fr.fn.Name(), shortName(fr.calleeDisplayQuick(&x.Call)))
 				}
 				for k := range a {
 					out[k] = true
@@ -120,9 +121,14 @@ func (fr *Frame) enterLoop(li *loopInfo, head *ssa.BasicBlock) {
 		fr.havocTargets(nm, li.spec.Assigns, ec)
 	} else if all {
 		fr.curMem = ex.newMem()
+		fr.curMem.lost = true
 		ex.note("loop %d of %s contains calls with unknown frame: all state havocked at loop head", li.ord, fr.fn.Name())
 	} else {
 		nm := fr.curMem.clone()
+		if assigned["*mem"] {
+			ex.havocGoMemory(nm)
+			delete(assigned, "*mem")
+		}
 		var ks []string
 		for k := range assigned {
 			ks = append(ks, k)
